@@ -292,6 +292,10 @@ func checkC19(c *Check) {
 	// the parameters acted upon are those of this request (no field inherited from the previous message)
 	checkFreshDecode(c, "7/request-is-fresh")
 	checkWireTypes(c, "10/wire-types")
+	// a reply that is rejected by the host after it was received (wrong length, inconsistent descriptor count) does not
+	// leave its descriptors open there (C14.2)
+	importObs(c, "C14", "C14.2/host-open", "12/rejected-reply-descriptors", func(o Obligation) bool { return strings.Contains(o.Key, ":cleanup") })
+	c.Expect("12/rejected-reply-descriptors", 2)
 
 	// ---------- 9: the control buffer holds the largest message the kernel can deliver ----------
 	// 253 descriptors (SCM_MAX_FD) plus a credential record (the host end has SO_PASSCRED): CMSG_SPACE(253*4) +
@@ -369,7 +373,83 @@ func checkC19(c *Check) {
 			}
 		}
 	}
-	c.Expect("8/no-aliasing", 1)
+	// the two directions of one socket do not share a scratch buffer: a send that overlaps a receive (the two
+	// loops of either endpoint run concurrently) would otherwise encode its control data over the one being parsed
+	for _, fn := range p.PkgFuncs("pkg/unixsocket") {
+		bufs := map[string]ssa.Value{}
+		var pos string
+		for _, b := range fn.Blocks {
+			for _, in := range b.Instrs {
+				st, ok := in.(*ssa.Store)
+				if !ok {
+					continue
+				}
+				fa, ok := st.Addr.(*ssa.FieldAddr)
+				if !ok || !strings.HasSuffix(derefType(fa.X.Type()).String(), "unixsocket.Socket") {
+					continue
+				}
+				if _, isSl := st.Val.Type().Underlying().(*types.Slice); isSl {
+					bufs[fieldName(fa.X.Type(), fa.Field)] = st.Val
+					pos = p.Pos(st.Pos())
+				}
+			}
+		}
+		if len(bufs) < 2 {
+			continue
+		}
+		nCred++
+		distinct, fresh := true, true
+		seen := map[ssa.Value]string{}
+		for f, v := range bufs {
+			// make([]T, n): MakeSlice, or for a constant n a slice of a new array
+			if sl, ok := v.(*ssa.Slice); ok {
+				if a, ok := sl.X.(*ssa.Alloc); ok && a.Heap {
+					v = a
+				}
+			}
+			switch v.(type) {
+			case *ssa.MakeSlice, *ssa.Alloc:
+			default:
+				fresh = false
+			}
+			if o, dup := seen[v]; dup {
+				distinct = false
+				_ = o
+			}
+			seen[v] = f
+		}
+		c.Cond(distinct && fresh, "8/no-aliasing", "pkg/unixsocket."+fn.Name()+":scratch-buffers", pos, "send and receive control buffers are separate allocations",
+			"the socket's send and receive control buffers are one allocation: a SendMsg that overlaps a RecvMsg on the same socket overwrites the control data being parsed (wrong descriptors, wrong count)")
+	}
+	c.Expect("8/no-aliasing", 2)
+
+	// what RecvMsg reports as payload length is what the kernel reported: the count of the read call, unmodified, on
+	// every successful return
+	if rm := p.Func("pkg/unixsocket", "Socket.RecvMsg"); rm != nil {
+		var rd *ssa.Call
+		for _, ci := range callInstrsDeep(rm, 1) {
+			if n, _ := calleeOf(ci); strings.HasSuffix(n, ".ReadMsgUnix") || strings.HasSuffix(n, ".Recvmsg") {
+				rd, _ = ci.(*ssa.Call)
+			}
+		}
+		nRet := 0
+		for _, b := range rm.Blocks {
+			ret, ok := b.Instrs[len(b.Instrs)-1].(*ssa.Return)
+			if !ok || len(ret.Results) < 3 || !isNilConst(retVal(ret, 2)) {
+				continue
+			}
+			nRet++
+			v := retVal(ret, 0)
+			ex, isEx := v.(*ssa.Extract)
+			okLen := rd != nil && isEx && ex.Tuple == ssa.Value(rd) && ex.Index == 0
+			c.Cond(okLen, "11/length-as-received", fmt.Sprintf("pkg/unixsocket.RecvMsg:return@b%d", b.Index), p.Pos(ret.Pos()), "the length returned is the count the read reported",
+				"a successful RecvMsg returns the length "+describe(v)+", not the count reported by the read: a payload is delivered shortened (or lengthened) with a nil error")
+		}
+		if nRet == 0 {
+			c.Undecided("11/length-as-received", "pkg/unixsocket.RecvMsg", p.Pos(rm.Pos()), "no successful return found")
+		}
+		c.Expect("11/length-as-received", 1)
+	}
 }
 
 // checkControlCloser: visits every control message, closes every SCM_RIGHTS descriptor, no early exit.
